@@ -51,6 +51,7 @@ func c04Specs(tier string) []*h.SeqSpec {
 		{"valid image followed by a stray }", append(append([]byte{}, i1.Data...), '}'), mtImg, "", "does not parse (content after the document)"},
 		{"valid image followed by a newline and ]", append(append([]byte{}, i1.Data...), '\n', ']'), mtImg, "", "does not parse (content after the document)"},
 		{"valid index followed by a stray }", append(append([]byte{}, f.Items["X1"].Data...), '}'), mtIdx, "", "does not parse (content after the document)"},
+		{"image, absent non-distributable layer with urls", []byte(strings.Replace(string(f.Items["Inol"].Data), `"mediaType":"`+mtLayer+`","digest":"`+f.Items["nl"].Dig+`"`, `"mediaType":"application/vnd.oci.image.layer.nondistributable.v1.tar+gzip","urls":["https://example.com/layer"],"digest":"`+f.Items["nl"].Dig+`"`, 1)), mtImg, "", "references a layer that is not in this repository (a foreign layer is a layer)"},
 		{"image body sent as index type", i1.Data, mtIdx, "", "media type inconsistent with the body (mediaType field names the image type)"},
 		{"index body sent as image type", f.Items["X1"].Data, mtImg, "", "media type inconsistent with the body (mediaType field names the index type)"},
 		{"unsupported Content-Type", i1.Data, "application/json", "", "unsupported media type"},
